@@ -113,3 +113,457 @@ Proof.
   - rewrite join_cons2 by discriminate. rewrite split_lf_go_app by exact Hl.
     cbn [app split_lf_go]. change (LF =? 10)%N with true. cbv iota. rewrite IH; [reflexivity|discriminate|exact Hr].
 Qed.
+
+(* ================================================================== 2. list-level facts *)
+Lemma str_eqb_neq a b : a <> b -> str_eqb a b = false.
+Proof. intros H. destruct (str_eqb a b) eqn:E; [apply str_eqb_eq in E; contradiction|reflexivity]. Qed.
+Lemma str_eqb_sym a b : str_eqb a b = str_eqb b a.
+Proof.
+  destruct (str_eqb a b) eqn:E.
+  - apply str_eqb_eq in E. subst. symmetry. apply str_eqb_refl.
+  - destruct (str_eqb b a) eqn:E2; [|reflexivity]. apply str_eqb_eq in E2. subst. rewrite str_eqb_refl in E. discriminate.
+Qed.
+
+Lemma existsb_str_In k l : existsb (str_eqb k) l = true <-> In k l.
+Proof.
+  rewrite existsb_exists. split.
+  - intros (x & Hx & E). apply str_eqb_eq in E. subst. exact Hx.
+  - intros H. exists k. split; [exact H|apply str_eqb_refl].
+Qed.
+Lemma nodup_keys_NoDup ks : nodup_keys ks = true <-> NoDup ks.
+Proof.
+  induction ks as [|k r IH]; cbn [nodup_keys]; [split; [constructor|reflexivity]|].
+  rewrite andb_true_iff, negb_true_iff, IH. split.
+  - intros [H1 H2]. constructor; [|exact H2]. intros Hin. apply existsb_str_In in Hin. congruence.
+  - intros H. inversion H as [|? ? Hn Hr]; subst. split; [|exact Hr].
+    destruct (existsb (str_eqb k) r) eqn:E; [|reflexivity]. apply existsb_str_In in E. contradiction.
+Qed.
+
+Lemma l_get_none_iff l k : l_get l k = None <-> ~ In k (map fst l).
+Proof.
+  induction l as [|[n v] r IH]; cbn [l_get map fst In]; [tauto|].
+  destruct (str_eqb n k) eqn:E.
+  - apply str_eqb_eq in E. subst. split; [discriminate|intros H; exfalso; apply H; left; reflexivity].
+  - rewrite IH. split; [intros H [H1|H1]; [subst; rewrite str_eqb_refl in E; discriminate|contradiction]|tauto].
+Qed.
+
+Lemma l_get_cons_other k v l k' : str_eqb k k' = false -> l_get ((k, v) :: l) k' = l_get l k'.
+Proof. intros H. cbn [l_get]. rewrite H. reflexivity. Qed.
+
+(* filtering by a predicate on names that rejects k is blind to set k / remove k *)
+Lemma filter_l_set (P : str -> bool) l k v : P k = false ->
+  filter (fun f => P (fst f)) (l_set l k v) = filter (fun f => P (fst f)) l.
+Proof.
+  intros HP. destruct (l_set_spec l k v) as [(a & x & b & E1 & E2 & E3)|[E1 E2]].
+  - rewrite E3, E1, !filter_app. cbn [filter fst]. rewrite HP. reflexivity.
+  - rewrite E2, filter_app. cbn [filter fst]. rewrite HP, app_nil_r. reflexivity.
+Qed.
+Lemma filter_l_remove (P : str -> bool) l k : P k = false ->
+  filter (fun f => P (fst f)) (l_remove l k) = filter (fun f => P (fst f)) l.
+Proof.
+  intros HP. unfold l_remove. induction l as [|[n v] r IH]; [reflexivity|]. cbn [filter fst].
+  destruct (str_eqb n k) eqn:E; cbn [negb].
+  - apply str_eqb_eq in E. subst n. rewrite HP. exact IH.
+  - cbn [filter fst]. rewrite IH. reflexivity.
+Qed.
+
+(* ================================================================== 3. the expansion, over any codecs *)
+Section Ext.
+Variable E : Type.
+Variable ext_print : N -> E -> str.
+Variable ext_parse : N -> str -> option E.
+(* the values of each external codec for which printing then parsing is claimed to be the identity *)
+Variable ext_dom : N -> E -> Prop.
+
+Notation uval := (uval E).
+Notation sval := (list (option (Derive.uval E))).
+Notation ser := (ser E ext_print).
+Notation de := (de E ext_parse).
+Notation from_field := (from_field E ext_parse).
+Notation from_fields := (from_fields E ext_parse).
+Notation to_items := (to_items E ext_print).
+
+(* THE assumption about external codecs (validated by the `derive` stream on the real functions) *)
+Definition ext_rt_law : Prop := forall i e, ext_dom i e -> ext_parse i (ext_print i e) = Some e.
+
+(* the representable values of a (serialiser, deserialiser) pair: those the pair round-trips *)
+Definition val_dom (s : ser_id) (d : de_id) (v : uval) : Prop :=
+  match s, d, v with
+  | SStr, DStr, VStr _ => True
+  | SBool, DBool, VBool _ => True
+  | SYesNo, DYesNo, VBool _ => True
+  | SJaNee, DJa, VBool _ => True
+  | SNum, DNum bits, VNum n => (n < 2 ^ bits)%N
+  | SInt, DInt bits, VInt z => int_in_range bits z
+  | SJoinWs, DSplitWs, VList l => forallb ws_item l = true          (* items non-empty, no white space *)
+  | SJoinNl, DSplitNl, VList l => l <> [] /\ forallb no_lf l = true   (* at least one item, no LF inside *)
+  | SJoinNl, DLines, VList l => forallb no_eol l = true /\ last l [1%N] <> []   (* no LF/CR, last item non-empty *)
+  | SExt i, DExt j, VExt e => i = j /\ ext_dom i e
+  | _, _, _ => False
+  end.
+
+Lemma val_dom_rt_pair s d v : val_dom s d v -> rt_pair s d = true.
+Proof.
+  destruct s, d; cbn; try contradiction; try reflexivity; destruct v; try contradiction.
+  intros [-> _]. apply N.eqb_refl.
+Qed.
+
+Theorem codec_rt s d v : ext_rt_law -> val_dom s d v -> exists t, ser s v = Some t /\ de d t = Some v.
+Proof.
+  intros Hext. destruct s, d; cbn [val_dom]; try contradiction; destruct v; try contradiction; intros H; cbn [Derive.ser Derive.de].
+  - eexists; split; reflexivity.
+  - eexists; split; [reflexivity|]. destruct b; reflexivity.
+  - eexists; split; [reflexivity|]. destruct b; reflexivity.
+  - eexists; split; [reflexivity|]. destruct b; reflexivity.
+  - eexists; split; [reflexivity|]. rewrite parse_print_dec by exact H. reflexivity.
+  - eexists; split; [reflexivity|]. rewrite parse_print_int by exact H. reflexivity.
+  - eexists; split; [reflexivity|]. rewrite split_ws_join by exact H. reflexivity.
+  - destruct H as [H1 H2]. eexists; split; [reflexivity|]. change [10%N] with [LF]. rewrite split_lf_join_nolf by assumption. reflexivity.
+  - destruct H as [H1 H2]. eexists; split; [reflexivity|]. change [10%N] with [LF]. rewrite lines_join by assumption. reflexivity.
+  - destruct H as [<- H]. eexists; split; [reflexivity|]. rewrite (Hext _ _ H). reflexivity.
+Qed.
+
+(* ---- struct values ---- *)
+(* typed: every present value is accepted by its serialiser; mandatory fields are present *)
+Definition fval_typed (f : fieldspec) (x : option uval) : Prop :=
+  match x with None => f_opt f = true | Some u => exists t, ser (f_ser f) u = Some t end.
+(* representable: additionally in the round-trip domain of the field's codec pair *)
+Definition fval_ok (f : fieldspec) (x : option uval) : Prop :=
+  match x with None => f_opt f = true | Some u => val_dom (f_ser f) (f_de f) u end.
+Definition val_typed (fs : list fieldspec) (v : sval) : Prop := Forall2 fval_typed fs v.
+Definition val_ok (fs : list fieldspec) (v : sval) : Prop := Forall2 fval_ok fs v.
+
+(* what a field prints to *)
+Definition fprint (f : fieldspec) (x : option uval) : option str :=
+  match x with None => None | Some u => ser (f_ser f) u end.
+
+Lemma val_ok_typed fs v : ext_rt_law -> val_ok fs v -> val_typed fs v.
+Proof.
+  intros Hext H. induction H as [|f x fs v Hx _ IH]; constructor; [|exact IH].
+  destruct x as [u|]; [|exact Hx]. destruct (codec_rt _ _ _ Hext Hx) as (t & Ht & _). exists t. exact Ht.
+Qed.
+
+(* the items to_paragraph builds: present fields, in declaration order *)
+Fixpoint present_items (fs : list fieldspec) (v : sval) : list (str * str) :=
+  match fs, v with
+  | f :: r, x :: xs => match fprint f x with Some s => (f_key f, s) :: present_items r xs | None => present_items r xs end
+  | _, _ => []
+  end.
+Fixpoint present_keys (fs : list fieldspec) (v : sval) : list str :=
+  match fs, v with
+  | f :: r, x :: xs => match x with Some _ => f_key f :: present_keys r xs | None => present_keys r xs end
+  | _, _ => []
+  end.
+
+Lemma to_items_typed fs v : val_typed fs v -> to_items fs v = Some (present_items fs v).
+Proof.
+  intros H. induction H as [|f x fs v Hx _ IH]; [reflexivity|]. cbn [Derive.to_items present_items fprint].
+  destruct x as [u|]; cbn [fprint].
+  - destruct Hx as (t & Ht). rewrite Ht, IH. reflexivity.
+  - cbn in Hx. rewrite Hx. exact IH.
+Qed.
+Lemma present_items_keys fs v : val_typed fs v -> map fst (present_items fs v) = present_keys fs v.
+Proof.
+  intros H. induction H as [|f x fs v Hx _ IH]; [reflexivity|]. cbn [present_items present_keys fprint].
+  destruct x as [u|]; cbn [fprint]; [|exact IH]. destruct Hx as (t & Ht). rewrite Ht. cbn [map fst]. rewrite IH. reflexivity.
+Qed.
+Lemma present_keys_incl fs v k : In k (present_keys fs v) -> In k (map f_key fs).
+Proof.
+  revert v. induction fs as [|f r IH]; intros [|x xs]; cbn [present_keys map]; try contradiction.
+  destruct x; cbn [In]; [intros [H|H]; [left; exact H|right; eapply IH; exact H]|intros H; right; eapply IH; exact H].
+Qed.
+Lemma present_items_incl fs v k : In k (map fst (present_items fs v)) -> In k (map f_key fs).
+Proof.
+  revert v. induction fs as [|f r IH]; intros [|x xs]; cbn [present_items map]; try contradiction.
+  destruct (fprint f x); cbn [map fst In]; [intros [H|H]; [left; exact H|right; eapply IH; exact H]|intros H; right; eapply IH; exact H].
+Qed.
+
+(* ---- reading: from_fields is determined by what get returns for the struct's keys ---- *)
+Lemma from_fields_ext get1 get2 fs : (forall k, In k (map f_key fs) -> get1 k = get2 k) ->
+  from_fields get1 fs = from_fields get2 fs.
+Proof.
+  induction fs as [|f r IH]; intros H; [reflexivity|]. cbn [Derive.from_fields].
+  unfold Derive.from_field. rewrite (H (f_key f)) by (left; reflexivity).
+  rewrite IH by (intros k Hk; apply H; right; exact Hk). reflexivity.
+Qed.
+
+Lemma from_fields_of_gets get fs v : ext_rt_law -> val_ok fs v ->
+  Forall2 (fun f x => get (f_key f) = fprint f x) fs v -> from_fields get fs = DOk v.
+Proof.
+  intros Hext Hok Hg. induction Hok as [|f x fs v Hx _ IH]; [reflexivity|].
+  inversion Hg as [|? ? ? ? Hgx Hgr]; subst. cbn [Derive.from_fields]. unfold Derive.from_field. rewrite Hgx.
+  destruct x as [u|]; cbn [fprint].
+  - destruct (codec_rt _ _ _ Hext Hx) as (t & Ht & Hd). rewrite Ht, Hd, (IH Hgr). reflexivity.
+  - cbn in Hx. rewrite Hx, (IH Hgr). reflexivity.
+Qed.
+
+Lemma Forall2_get_cons k s (L : list (str * str)) fs (v : sval) :
+  Forall (fun g => str_eqb k (f_key g) = false) fs ->
+  Forall2 (fun f x => l_get L (f_key f) = fprint f x) fs v ->
+  Forall2 (fun f x => l_get ((k, s) :: L) (f_key f) = fprint f x) fs v.
+Proof.
+  intros Hne H. induction H as [|g y r0 xs0 Hgy _ IH2]; constructor.
+  - inversion Hne; subst. rewrite l_get_cons_other by assumption. exact Hgy.
+  - inversion Hne; subst. apply IH2. assumption.
+Qed.
+
+(* what l_get returns on the items of to_paragraph *)
+Lemma present_items_get fs v : NoDup (map f_key fs) -> length fs = length v ->
+  Forall2 (fun f x => l_get (present_items fs v) (f_key f) = fprint f x) fs v.
+Proof.
+  revert v. induction fs as [|f r IH]; intros [|x xs] Hnd Hlen; try discriminate; [constructor|].
+  cbn [map] in Hnd. inversion Hnd as [|? ? Hn Hr]; subst. cbn [length] in Hlen. injection Hlen as Hlen.
+  specialize (IH xs Hr Hlen). cbn [present_items]. constructor.
+  - destruct (fprint f x) as [s|] eqn:Ep.
+    + cbn [l_get]. rewrite str_eqb_refl. reflexivity.
+    + apply l_get_none_iff. intros Hin. apply Hn. eapply present_items_incl. exact Hin.
+  - assert (Hne : Forall (fun g => str_eqb (f_key f) (f_key g) = false) r).
+    { apply Forall_forall. intros g Hg. apply str_eqb_neq. intros E0. apply Hn. rewrite E0. apply in_map. exact Hg. }
+    destruct (fprint f x) as [s|]; [|exact IH].
+    apply Forall2_get_cons; assumption.
+Qed.
+
+Lemma Forall2_length_eq {A B} (R : A -> B -> Prop) l1 l2 : Forall2 R l1 l2 -> length l1 = length l2.
+Proof. induction 1; cbn; congruence. Qed.
+
+(* ---- errors: the first field, in declaration order, that cannot be read decides ---- *)
+Definition field_reads (get : str -> option str) (f : fieldspec) : Prop := exists x, from_field get f = DOk x.
+
+Lemma from_fields_first_error get a f b e : Forall (field_reads get) a -> from_field get f = DErr e ->
+  from_fields get (a ++ f :: b) = DErr e.
+Proof.
+  intros Ha Hf. induction Ha as [|g a (x & Hx) _ IH]; cbn [app Derive.from_fields].
+  - rewrite Hf. reflexivity.
+  - rewrite Hx, IH. reflexivity.
+Qed.
+Lemma from_fields_error_inv get fs e : from_fields get fs = DErr e ->
+  exists a f b, fs = a ++ f :: b /\ Forall (field_reads get) a /\ from_field get f = DErr e.
+Proof.
+  induction fs as [|f r IH]; cbn [Derive.from_fields]; [discriminate|].
+  destruct (from_field get f) as [x|e0] eqn:Ef.
+  - destruct (from_fields get r) as [xs|e1] eqn:Er; [discriminate|]. intros H. injection H as <-.
+    destruct (IH eq_refl) as (a & g & b & E1 & E2 & E3). exists (f :: a), g, b. subst r. repeat split; [|exact E3].
+    constructor; [exists x; exact Ef|exact E2].
+  - intros H. injection H as <-. exists [], f, r. repeat split; [constructor|exact Ef].
+Qed.
+Lemma from_field_error get f e : from_field get f = DErr e ->
+  (e = Missing (f_key f) /\ f_opt f = false /\ get (f_key f) = None) \/
+  (e = Parsing (f_key f) /\ exists s, get (f_key f) = Some s /\ de (f_de f) s = None).
+Proof.
+  unfold Derive.from_field. destruct (get (f_key f)) as [s|].
+  - destruct (de (f_de f) s) eqn:Ed; [discriminate|]. intros H. injection H as <-. right. split; [reflexivity|]. exists s. split; [reflexivity|exact Ed].
+  - destruct (f_opt f); [discriminate|]. intros H. injection H as <-. left. repeat split.
+Qed.
+Lemma from_fields_ok_iff get fs : (exists v, from_fields get fs = DOk v) <-> Forall (field_reads get) fs.
+Proof.
+  induction fs as [|f r IH]; cbn [Derive.from_fields]; [split; [constructor|exists []; reflexivity]|]. split.
+  - intros (v & Hv). destruct (from_field get f) as [x|] eqn:Ef; [|discriminate].
+    destruct (from_fields get r) as [xs|] eqn:Er; [|discriminate]. constructor; [exists x; exact Ef|apply IH; exists xs; reflexivity].
+  - intros H. inversion H as [|? ? (x & Hx) Hr]; subst. apply IH in Hr. destruct Hr as (xs & Hxs). rewrite Hx, Hxs. eexists; reflexivity.
+Qed.
+
+(* ---- update on the list model ---- *)
+Fixpoint l_update (fs : list fieldspec) (v : sval) (l : list (str * str)) : option (list (str * str)) :=
+  match fs, v with
+  | [], [] => Some l
+  | f :: r, x :: xs =>
+    match x with
+    | None => if f_opt f then l_update r xs (l_remove l (f_key f)) else None
+    | Some u => match ser (f_ser f) u with Some s => l_update r xs (l_set l (f_key f) s) | None => None end
+    end
+  | _, _ => None
+  end.
+
+Definition owned (fs : list fieldspec) (k : str) : bool := existsb (str_eqb k) (map f_key fs).
+Definition not_owned_items (fs : list fieldspec) (l : list (str * str)) : list (str * str) :=
+  filter (fun kv => negb (owned fs (fst kv))) l.
+
+Lemma owned_In fs k : owned fs k = true <-> In k (map f_key fs).
+Proof. apply existsb_str_In. Qed.
+
+Lemma l_update_spec fs : forall v l, NoDup (map f_key fs) -> val_typed fs v ->
+  exists l', l_update fs v l = Some l' /\
+    Forall2 (fun f x => l_get l' (f_key f) = fprint f x) fs v /\
+    (forall k, ~ In k (map f_key fs) -> l_get l' k = l_get l k) /\
+    (forall P : str -> bool, (forall k, In k (map f_key fs) -> P k = false) ->
+        filter (fun kv => P (fst kv)) l' = filter (fun kv => P (fst kv)) l).
+Proof.
+  induction fs as [|f r IH]; intros v l Hnd Hty; inversion Hty as [|? x ? xs Hx Hr]; subst.
+  - exists l. split; [reflexivity|]. split; [constructor|]. split; reflexivity.
+  - cbn [map] in Hnd. inversion Hnd as [|? ? Hn Hnr]; subst.
+    set (l1 := match x with
+               | None => l_remove l (f_key f)
+               | Some u => match ser (f_ser f) u with Some s => l_set l (f_key f) s | None => l end
+               end).
+    destruct (IH xs l1 Hnr Hr) as (l' & Hu & Hget & Hother & Hfilt).
+    assert (Hstep : l_update (f :: r) (x :: xs) l = l_update r xs l1).
+    { cbn [l_update]. unfold l1. destruct x as [u|]; [destruct Hx as (t & Ht); rewrite Ht; reflexivity|cbn in Hx; rewrite Hx; reflexivity]. }
+    assert (Hk1 : l_get l1 (f_key f) = fprint f x).
+    { unfold l1. destruct x as [u|]; cbn [fprint].
+      - destruct Hx as (t & Ht). rewrite Ht. apply l_get_set_same.
+      - apply l_remove_spec. }
+    assert (Hk2 : forall k, k <> f_key f -> l_get l1 k = l_get l k).
+    { intros k Hne. unfold l1. destruct x as [u|].
+      - destruct (ser (f_ser f) u); [|reflexivity]. apply l_get_set_other. apply str_eqb_neq. congruence.
+      - apply l_remove_spec. apply str_eqb_neq. exact Hne. }
+    assert (Hk3 : forall P : str -> bool, P (f_key f) = false ->
+                  filter (fun kv => P (fst kv)) l1 = filter (fun kv => P (fst kv)) l).
+    { intros P HP. unfold l1. destruct x as [u|].
+      - destruct (ser (f_ser f) u); [|reflexivity]. apply filter_l_set. exact HP.
+      - apply filter_l_remove. exact HP. }
+    exists l'. rewrite Hstep. split; [exact Hu|]. split; [|split].
+    + constructor; [|exact Hget]. rewrite Hother by exact Hn. exact Hk1.
+    + intros k Hk. cbn [map In] in Hk. rewrite Hother by tauto. apply Hk2. intros ->. apply Hk. left. reflexivity.
+    + intros P HP. rewrite Hfilt by (intros k Hk; apply HP; right; exact Hk). apply Hk3. apply HP. left. reflexivity.
+Qed.
+
+(* ================================================================== 4. over any paragraph back-end *)
+(* The laws a back-end has to satisfy: its observer [pl_items] maps get / set / remove / collect
+   onto the list operations of the lossy paragraph (proved for the list in proofs/LossyRtP.v). *)
+Record ParaLaws (PL : ParaLike) : Prop := mk_para_laws {
+  law_get : forall p k, pl_get PL p k = l_get (pl_items PL p) k;
+  law_set : forall p k v, pl_items PL (pl_set PL p k v) = l_set (pl_items PL p) k v;
+  law_remove : forall p k, pl_items PL (pl_remove PL p k) = l_remove (pl_items PL p) k;
+  law_of_list : forall l, pl_items PL (pl_of_list PL l) = l }.
+
+Section Backend.
+Variable PL : ParaLike.
+Hypothesis laws : ParaLaws PL.
+Notation from_paragraph := (from_paragraph E ext_parse PL).
+Notation to_paragraph := (to_paragraph E ext_print PL).
+Notation update_paragraph := (update_paragraph E ext_print PL).
+
+Lemma from_paragraph_items fs p : from_paragraph fs p = from_fields (l_get (pl_items PL p)) fs.
+Proof. unfold Derive.from_paragraph. apply from_fields_ext. intros k _. apply (law_get _ laws). Qed.
+
+Lemma update_paragraph_items fs : forall v p,
+  match update_paragraph fs v p with
+  | Some p' => l_update fs v (pl_items PL p) = Some (pl_items PL p')
+  | None => l_update fs v (pl_items PL p) = None
+  end.
+Proof.
+  induction fs as [|f r IH]; intros [|x xs] p; cbn [Derive.update_paragraph l_update]; try reflexivity.
+  destruct x as [u|].
+  - destruct (ser (f_ser f) u) as [s|]; [|reflexivity]. specialize (IH xs (pl_set PL p (f_key f) s)).
+    rewrite (law_set _ laws) in IH. exact IH.
+  - destruct (f_opt f); [|reflexivity]. specialize (IH xs (pl_remove PL p (f_key f))).
+    rewrite (law_remove _ laws) in IH. exact IH.
+Qed.
+
+(* round trip; the paragraph lists the present fields in declaration order under their keys *)
+Theorem derive_rt_order fs v : ext_rt_law -> NoDup (map f_key fs) -> val_ok fs v ->
+  exists p, to_paragraph fs v = Some p /\
+            from_paragraph fs p = DOk v /\
+            pl_items PL p = present_items fs v /\
+            map fst (pl_items PL p) = present_keys fs v.
+Proof.
+  intros Hext Hnd Hok. pose proof (val_ok_typed _ _ Hext Hok) as Hty.
+  unfold Derive.to_paragraph. rewrite (to_items_typed _ _ Hty). eexists. split; [reflexivity|].
+  rewrite from_paragraph_items, (law_of_list _ laws). split; [|split; [reflexivity|apply present_items_keys; exact Hty]].
+  apply from_fields_of_gets; [exact Hext|exact Hok|].
+  apply present_items_get; [exact Hnd|eapply Forall2_length_eq; exact Hok].
+Qed.
+
+(* to_paragraph alone (structs deriving only ToDeb822): order and omission *)
+Theorem derive_order fs v : val_typed fs v ->
+  exists p, to_paragraph fs v = Some p /\ pl_items PL p = present_items fs v /\
+            map fst (pl_items PL p) = present_keys fs v.
+Proof.
+  intros Hty. unfold Derive.to_paragraph. rewrite (to_items_typed _ _ Hty). eexists. split; [reflexivity|].
+  rewrite (law_of_list _ laws). split; [reflexivity|apply present_items_keys; exact Hty].
+Qed.
+
+Theorem derive_update fs v p : ext_rt_law -> NoDup (map f_key fs) -> val_ok fs v ->
+  exists p', update_paragraph fs v p = Some p' /\
+    from_paragraph fs p' = DOk v /\
+    (forall k, ~ In k (map f_key fs) -> pl_get PL p' k = pl_get PL p k) /\
+    not_owned_items fs (pl_items PL p') = not_owned_items fs (pl_items PL p) /\
+    Forall2 (fun f x => x = None -> ~ In (f_key f) (map fst (pl_items PL p'))) fs v /\
+    Forall2 (fun f x => pl_get PL p' (f_key f) = fprint f x) fs v.
+Proof.
+  intros Hext Hnd Hok. pose proof (val_ok_typed _ _ Hext Hok) as Hty.
+  destruct (l_update_spec fs v (pl_items PL p) Hnd Hty) as (l' & Hu & Hget & Hother & Hfilt).
+  pose proof (update_paragraph_items fs v p) as Hh. destruct (update_paragraph fs v p) as [p'|]; [|congruence].
+  rewrite Hu in Hh. injection Hh as Hl'. exists p'. split; [reflexivity|].
+  assert (Hget' : Forall2 (fun f x => pl_get PL p' (f_key f) = fprint f x) fs v).
+  { clear - Hget Hl' laws. subst l'. induction Hget; constructor; [rewrite (law_get _ laws); assumption|assumption]. }
+  split; [|split; [|split; [|split]]].
+  - rewrite from_paragraph_items, <- Hl'. apply from_fields_of_gets; assumption.
+  - intros k Hk. rewrite !(law_get _ laws), <- Hl'. apply Hother. exact Hk.
+  - unfold not_owned_items. rewrite <- Hl'. apply (Hfilt (fun k => negb (owned fs k))).
+    intros k Hk. apply negb_false_iff, owned_In. exact Hk.
+  - rewrite <- Hl'. clear - Hget. induction Hget as [|f x fs v Hx _ IH]; constructor; [|exact IH].
+    intros ->. cbn [fprint] in Hx. apply l_get_none_iff. exact Hx.
+  - exact Hget'.
+Qed.
+
+(* only typedness is needed for the part of update that does not read back *)
+Theorem derive_update_frame fs v p : NoDup (map f_key fs) -> val_typed fs v ->
+  exists p', update_paragraph fs v p = Some p' /\
+    (forall k, ~ In k (map f_key fs) -> pl_get PL p' k = pl_get PL p k) /\
+    not_owned_items fs (pl_items PL p') = not_owned_items fs (pl_items PL p) /\
+    Forall2 (fun f x => pl_get PL p' (f_key f) = fprint f x) fs v.
+Proof.
+  intros Hnd Hty.
+  destruct (l_update_spec fs v (pl_items PL p) Hnd Hty) as (l' & Hu & Hget & Hother & Hfilt).
+  pose proof (update_paragraph_items fs v p) as Hh. destruct (update_paragraph fs v p) as [p'|]; [|congruence].
+  rewrite Hu in Hh. injection Hh as Hl'. exists p'. split; [reflexivity|]. split; [|split].
+  - intros k Hk. rewrite !(law_get _ laws), <- Hl'. apply Hother. exact Hk.
+  - unfold not_owned_items. rewrite <- Hl'. apply (Hfilt (fun k => negb (owned fs k))).
+    intros k Hk. apply negb_false_iff, owned_In. exact Hk.
+  - clear - Hget Hl' laws. subst l'. induction Hget; constructor; [rewrite (law_get _ laws); assumption|assumption].
+Qed.
+
+(* errors name the field: the first field in declaration order that cannot be read *)
+Theorem derive_missing a f b p : Forall (field_reads (pl_get PL p)) a ->
+  f_opt f = false -> pl_get PL p (f_key f) = None ->
+  from_paragraph (a ++ f :: b) p = DErr (Missing (f_key f)).
+Proof.
+  intros Ha Ho Hg. apply from_fields_first_error; [exact Ha|]. unfold Derive.from_field. rewrite Hg, Ho. reflexivity.
+Qed.
+Theorem derive_parse_error a f b p s : Forall (field_reads (pl_get PL p)) a ->
+  pl_get PL p (f_key f) = Some s -> de (f_de f) s = None ->
+  from_paragraph (a ++ f :: b) p = DErr (Parsing (f_key f)).
+Proof.
+  intros Ha Hg Hd. apply from_fields_first_error; [exact Ha|]. unfold Derive.from_field. rewrite Hg, Hd. reflexivity.
+Qed.
+Theorem derive_error_sound fs p e : from_paragraph fs p = DErr e ->
+  exists a f b, fs = a ++ f :: b /\ Forall (field_reads (pl_get PL p)) a /\
+    ((e = Missing (f_key f) /\ f_opt f = false /\ pl_get PL p (f_key f) = None) \/
+     (e = Parsing (f_key f) /\ exists s, pl_get PL p (f_key f) = Some s /\ de (f_de f) s = None)).
+Proof.
+  intros H. destruct (from_fields_error_inv _ _ _ H) as (a & f & b & E1 & E2 & E3).
+  exists a, f, b. split; [exact E1|]. split; [exact E2|]. apply from_field_error. exact E3.
+Qed.
+Theorem derive_total fs p : (exists v, from_paragraph fs p = DOk v) <-> Forall (field_reads (pl_get PL p)) fs.
+Proof. apply from_fields_ok_iff. Qed.
+End Backend.
+
+(* ---- both back-ends behave alike: everything factors through pl_items ---- *)
+Theorem derive_backend_independent PL1 PL2 : ParaLaws PL1 -> ParaLaws PL2 -> forall fs v,
+  (match Derive.to_paragraph E ext_print PL1 fs v, Derive.to_paragraph E ext_print PL2 fs v with
+   | Some p1, Some p2 => pl_items PL1 p1 = pl_items PL2 p2
+   | None, None => True
+   | _, _ => False
+   end) /\
+  (forall p1 p2, pl_items PL1 p1 = pl_items PL2 p2 ->
+     Derive.from_paragraph E ext_parse PL1 fs p1 = Derive.from_paragraph E ext_parse PL2 fs p2 /\
+     match Derive.update_paragraph E ext_print PL1 fs v p1, Derive.update_paragraph E ext_print PL2 fs v p2 with
+     | Some q1, Some q2 => pl_items PL1 q1 = pl_items PL2 q2
+     | None, None => True
+     | _, _ => False
+     end).
+Proof.
+  intros L1 L2 fs v. split.
+  - unfold Derive.to_paragraph. destruct (to_items fs v); [|exact I]. rewrite (law_of_list _ L1), (law_of_list _ L2). reflexivity.
+  - intros p1 p2 Hp. split.
+    + rewrite (from_paragraph_items PL1 L1), (from_paragraph_items PL2 L2), Hp. reflexivity.
+    + pose proof (update_paragraph_items PL1 L1 fs v p1) as H1. pose proof (update_paragraph_items PL2 L2 fs v p2) as H2.
+      rewrite Hp in H1.
+      destruct (Derive.update_paragraph E ext_print PL1 fs v p1), (Derive.update_paragraph E ext_print PL2 fs v p2); try congruence; exact I.
+Qed.
+End Ext.
+
+(* ================================================================== 5. the lossy back-end satisfies the laws *)
+Theorem lossy_laws : ParaLaws lossy_para_like.
+Proof. constructor; reflexivity. Qed.
